@@ -18,7 +18,7 @@ PIV = {"simplepiv", "simplelupiv", "blocklupiv"}
 LU = {"simplelu", "simplelupiv", "blocklu", "blocklupiv"}
 # ways of requesting the inverse that are compared with the model of a base strategy (harness/inverse_calls.h)
 VARIANT_BASE = {"lazy": "simple", "lazyadd": "simple", "lazysub": "simple", "lazymul": "simple", "lazymull": "simple",
-                "expr": "simple", "utexpr": "ut", "lutexpr": "lut"}
+                "expr": "simple", "utexpr": "ut", "lutexpr": "lut", "lazymuleq": "simple"}
 def base_of(s): return VARIANT_BASE.get(s, s)
 THEOREM = "Fastor.C10.inverse_correct"
 MODEL = "FastorModel.Model.Inverse"
@@ -225,7 +225,7 @@ def batched_line(nb, J, tag, rng):
 # plan: translation units of the exact (rational) run.  Compile time grows quickly with n (every block size is
 # its own instantiation of matmul / views), so the quick tier takes all sizes 1..9, every class boundary that is
 # affordable, and one representative of every size class of every dispatcher.
-LAZYV = ["lazy", "lazyadd", "lazysub", "lazymul", "lazymull", "expr"]
+LAZYV = ["lazy", "lazyadd", "lazysub", "lazymul", "lazymull", "expr", "lazymuleq"]
 
 def rat_plan(tier):
     allS = STRATS
@@ -382,23 +382,24 @@ def real_plan(tier):
         # the intrinsic leaf kernels (n = 2, 4; float and double) and what is built from them (5..9), every entry point
         exact = list(resid) + [(s, n) for n in (1, 2, 3, 4) for s in ("simple", "simplepiv", "ut", "lut")]
         exact += [(s, n) for n in (6, 7) for s in ("simple", "simplepiv")] + [(s, 3) for s in ("simplelupiv", "blocklu")]
-        exact += [(s, n) for n in (4, 5) for s in ("lazy", "lazyadd", "lazymul", "expr")] + [("lazy", 2), ("lazysub", 4), ("lazymull", 4)]
+        exact += [(s, n) for n in (4, 5) for s in ("lazy", "lazyadd", "lazymul", "expr")] + [("lazy", 2), ("lazysub", 4), ("lazymull", 4), ("lazymuleq", 4)]
         exact += [("utexpr", 4), ("lutexpr", 4)]
         exact += [("batched", (3, 2)), ("batched", (2, 3)), ("batched", (4, 4)), ("batched4", (2, 2, 2)), ("batched4", (2, 2, 4)), ("batched4", (2, 2, 3))]
         return [(resid, sorted(set(exact), key=str))]
     buckets = []
-    for lo, hi in ((1, 6), (7, 10), (11, 13), (14, 16), (17, 18), (19, 20)):
+    for lo, hi in ((1, 5), (6, 9), (10, 12)):
         resid = [(s, n) for n in range(lo, hi + 1) for s in STRATS]
         exact = list(resid)
         if lo == 1:
             exact += [(s, n) for n in (1, 2, 3, 4, 5) for s in LAZYV + ["utexpr", "lutexpr"]]
             exact += [("batched", (nb, J)) for J in (1, 2, 3, 4) for nb in (3, 4)] + [("batched4", (2, 2, J)) for J in (1, 2, 3, 4)]
-        if lo == 7: exact += [(s, n) for n in (8, 9) for s in LAZYV + ["utexpr", "lutexpr"]]
+        if lo == 6: exact += [(s, n) for n in (8, 9) for s in LAZYV + ["utexpr", "lutexpr"]]
         buckets.append((resid, exact))
-    for n in (32, 33):
-        buckets.append(([(s, n) for s in ("simple", "simplepiv", "ut", "lut")], [(s, n) for s in ("simple", "simplepiv", "ut", "lut", "lazy")]))
-        buckets.append(([(s, n) for s in ("simplelu", "simplelupiv")], [(s, n) for s in ("simplelu", "simplelupiv")]))
-    buckets.append(([("simple", 64), ("simple", 65), ("simplepiv", 65)], [("simple", 64), ("simple", 65), ("simplepiv", 65), ("ut", 65), ("lut", 65)]))
+    # larger sizes: only on the ISAs of the quick tier (marked by the third component)
+    buckets.append(([(s, n) for n in (16, 17) for s in STRATS], [(s, n) for n in (16, 17) for s in STRATS + ["lazy"]], "main-isas"))
+    buckets.append(([(s, n) for n in (32, 33) for s in ("simple", "simplepiv", "ut", "lut")],
+                    [(s, n) for n in (32, 33) for s in ("simple", "simplepiv", "ut", "lut", "lazy")], "main-isas"))
+    buckets.append(([("simple", 64), ("simple", 65), ("simplepiv", 65)], [("simple", 64), ("simple", 65), ("simplepiv", 65), ("ut", 65), ("lut", 65)], "main-isas"))
     return buckets
 
 def exact_real_cases(tier, seed, buckets):
@@ -406,8 +407,8 @@ def exact_real_cases(tier, seed, buckets):
     returns (lines, model_by_line)"""
     rng = random.Random(seed * 15485863 + 7)
     pairs = set()
-    for _, exact in buckets:
-        for (s, n) in exact:
+    for bk in buckets:
+        for (s, n) in bk[1]:
             if s == "batched": pairs.add(("batched", n))
             elif s == "batched4": pairs.add(("batched", (n[0] * n[1], n[2])))
             else: pairs.add((base_of(s), n))
@@ -444,7 +445,9 @@ def exact_real_cases(tier, seed, buckets):
     keep = {}; per = {}
     for (s, n, line), mo in zip(cand, model):
         mk = symrun.kv(mo)
-        if mk.get("DEF") != "1" or mk.get("DY") != "1" or int(mk.get("XBITS", "99")) > 10: continue
+        # float has 24 mantissa bits: products of two partial inverses summed over n terms must stay exact
+        # (2*XBITS + log2 n <= 24); the same cases are used for double
+        if mk.get("DEF") != "1" or mk.get("DY") != "1" or int(mk.get("XBITS", "99")) > (10 if (n if isinstance(n, int) else n[1]) <= 9 else 8): continue
         if s in PIV and "P" in mk and max_cycle(mk["P"]) < 2 and n >= 2: continue     # the pivot must really permute
         if per.get((s, n), 0) >= want: continue
         per[(s, n)] = per.get((s, n), 0) + 1
@@ -458,7 +461,9 @@ def real_groups(tier, seed, cfile):
     buckets = real_plan(tier)
     for isa in isas:
         for t in ("float", "double"):
-            for bi, (resid, exact) in enumerate(buckets):
+            for bi, bk in enumerate(buckets):
+                resid, exact = bk[0], bk[1]
+                if len(bk) > 2 and isa not in core.QUICK_ISAS: continue
                 calls = []
                 for (s, n) in resid:
                     # family 1 (symmetric positive definite, prescribed condition number) keeps every leading block and Schur
@@ -579,14 +584,43 @@ def replay(path):
     kind = obj.get("kind")
     if kind in ("rat-oracle", "correspondence") and "line" in obj:
         d = symrun.kv(obj["line"])
-        s = d["strat"]; n = int(d["n"])
-        pair = ("batched", (int(d["nb"]), n)) if s == "batched" else (s, n)
+        s = d["strat"]; n = int(d["n"]); via = d.get("via", s)
+        if s == "batched":
+            nb = int(d["nb"])
+            pair = ("batched4", (2, nb // 2, n)) if via == "rank4" and nb % 2 == 0 else ("batched", (nb, n))
+        else:
+            pair = (via, n)
+        line = obj["line"].split(" via=")[0]
         v = core.Verdict(PID + "-replay", "quick", 0)
         with core.Scratch() as wd:
-            stats, _ = run_rat(v, "quick", 0, wd, plan=[[pair]], lines=[obj["line"]], verbose=True)
+            stats, _ = run_rat(v, "quick", 0, wd, plan=[[pair]], lines=[line], verbose=True)
         bad = len(v.violations)
         print("replay:", "FAIL" if bad else "ok", stats["cases"], "case(s)")
         return 1 if bad else 0
+    if kind == "real-exact" and "line" in obj:
+        d = symrun.kv(obj["line"]); s = d["strat"]; n = int(d["n"]); via = obj.get("via", s); t = obj.get("T", "float")
+        if s == "batched":
+            nb = int(d["nb"])
+            reg = ("REG_XB4(%s, 2, %d, %d);" % (t, nb // 2, n)) if via == "rank4" else ("REG_XB(%s, %d, %d);" % (t, nb, n))
+        else:
+            reg = "REG_X(%s, %s, %d);" % (t, via.upper(), n)
+        with core.Scratch() as wd:
+            cfile = os.path.join(wd, "exact_cases.txt")
+            open(cfile, "w").write(obj["line"] + "\n")
+            g = {"key": "replay", "header": "inverse_real.h", "isa": obj.get("isa", "sse2"), "opt": "-O2", "pre": "static bool g_verbose=false;",
+                 "calls": [reg, 'c10r::run_exact_file("%s");' % cfile]}
+            res = symrun.run_groups([g], wd, per_tu=1000, bisect=False)
+            mo = core.fmodel([obj["line"]])[0]
+            bad = True
+            for r in res:
+                out = r["res"]["compile_out"][-2000:] if r["res"]["rc_compile"] else r["res"]["out"]
+                for l in out.split("\n"):
+                    if " | " in l:
+                        io = symrun.kv(l.split(" | ", 1)[1]); mk = symrun.kv(mo)
+                        print("impl :", l.split(" | ", 1)[1]); print("model:", mo)
+                        bad = io.get("ORACLE") != "ok" or any(k in io and io[k] != mk[k] for k in ("X", "P") if k in mk)
+            print("replay:", "FAIL" if bad else "ok")
+            return 1 if bad else 0
     if kind == "real-oracle":
         from vlib import flow
         return flow.standard_replay(path)
